@@ -109,9 +109,12 @@ Definition call_dep (o : cbo_options) (imports classes : list name) (r : cref) :
        (mem n imports || mem n classes || (o_include_builtins o && builtin_type n))
     then [Plain n] else []
   else [].
+(* A node is visited iff every field on its path is traversed; this presupposes that no visitor
+   cuts the walk on the way (all visitors return true): Gen/ClassConst.v:cbo_walk_never_pruned,
+   which CBOProofs.v:code_flags / Props/C13.v:C13_walk_never_pruned require to be true. *)
 Definition mention_dep (o : cbo_options) (imports classes : list name) (m : mention) : list cref :=
   match m_kind m with
-  | KInst r => if reached cbo_walk_fields 0 (m_pos m) [] then call_dep o imports classes r else []
+  | KInst r => if reached_at cbo_walk_fields 0 (m_pos m) (m_slots m) [] then call_dep o imports classes r else []
   | KAttr _ _ | KCall _ _ => []
   end.
 Definition member_mentions (m : member) : list mention :=
